@@ -254,6 +254,190 @@ theorem outer_eq_fold (pre : EnumPre) : ∀ (fuel : Nat) (y : Int) (st : EnumSt)
         rcases hin with (h1 | h1) | h1 <;> simp [h1]
       rw [hc, foldlM_inactive cond q tmc b nb mt pre st hin]; rfl
 
+
+/-! ### completeness relative to the enumerated box -/
+
+/-- a cell that neither hits nor stops -/
+def Pass (x y : Int) : Prop := bac cond q tmc b nb x y = none ∧ ¬(x = 0 ∧ y = 0)
+
+theorem stepCell_pass (y : Int) (st : EnumSt) (x : Int) (hf : st.found = none) (hs : st.stop = false) (ht : st.tries < mt)
+    (hp : Pass cond q tmc b nb x y) :
+    stepCell cond q tmc b nb mt y st x = ⟨none, false, st.tries + 1⟩ := by
+  have hact : active mt st = true := by simp [active, hf, hs, ht]
+  simp only [stepCell, hact, if_true, hp.1]
+  have : (x == 0 && y == 0) = false := by
+    by_cases hx : x = 0
+    · by_cases hy : y = 0
+      · exact absurd ⟨hx, hy⟩ hp.2
+      · simp [hy]
+    · simp [hx]
+  rw [this]
+
+theorem fold_pass (y : Int) : ∀ (l : List Int) (st : EnumSt), st.found = none → st.stop = false →
+    (∀ x ∈ l, Pass cond q tmc b nb x y) → st.tries + l.length ≤ mt →
+    l.foldl (stepCell cond q tmc b nb mt y) st = ⟨none, false, st.tries + l.length⟩ := by
+  intro l
+  induction l with
+  | nil => intro st hf hs _ _; cases st; simp_all
+  | cons x xs ih =>
+    intro st hf hs hp ht
+    rw [List.foldl_cons, stepCell_pass cond q tmc b nb mt y st x hf hs (by simp at ht; omega)
+      (hp x List.mem_cons_self)]
+    rw [ih _ rfl rfl (fun x' hx' => hp x' (List.mem_cons_of_mem _ hx')) (by simp at ht ⊢; omega)]
+    simp only [List.length_cons]
+    congr 1; omega
+
+theorem fold_hit (y : Int) (l1 l2 : List Int) (x : Int) (st : EnumSt) (e : Elem) (hf : st.found = none)
+    (hs : st.stop = false) (hp : ∀ x' ∈ l1, Pass cond q tmc b nb x' y) (ht : st.tries + l1.length < mt)
+    (hhit : bac cond q tmc b nb x y = some e) :
+    ((l1 ++ x :: l2).foldl (stepCell cond q tmc b nb mt y) st).found = some e := by
+  rw [List.foldl_append, fold_pass cond q tmc b nb mt y l1 st hf hs hp (by omega), List.foldl_cons]
+  have hact : active mt (⟨none, false, st.tries + l1.length⟩ : EnumSt) = true := by simp [active, ht]
+  have hstep : stepCell cond q tmc b nb mt y ⟨none, false, st.tries + l1.length⟩ x
+      = ⟨some e, x == 0 && y == 0, st.tries + l1.length + 1⟩ := by
+    simp only [stepCell, hact, if_true, hhit]
+  rw [hstep, fold_inactive]
+  simp [active]
+
+/-- number of cells of a row / of all rows before `y` -/
+def rowLen (pre : EnumPre) (y : Int) : Nat :=
+  match rowBounds pre y with
+  | some (lo, hi) => (intRange lo hi).length
+  | none => 0
+
+def cellsOfRows (pre : EnumPre) (rows : List Int) : Nat := (rows.map (rowLen pre)).sum
+
+theorem rows_pass (pre : EnumPre) : ∀ (rows : List Int) (st r : EnumSt), st.found = none → st.stop = false →
+    rows.foldlM (rowFold cond q tmc b nb mt pre) st = some r →
+    (∀ y ∈ rows, ∀ lo hi, rowBounds pre y = some (lo, hi) → ∀ x ∈ intRange lo hi, Pass cond q tmc b nb x y) →
+    st.tries + cellsOfRows pre rows < mt →
+    r = ⟨none, false, st.tries + cellsOfRows pre rows⟩ := by
+  intro rows
+  induction rows with
+  | nil =>
+    intro st r hf hs h _ _
+    simp only [List.foldlM_nil] at h
+    cases st; simp_all [cellsOfRows]
+  | cons y ys ih =>
+    intro st r hf hs h hp ht
+    have hsum : cellsOfRows pre (y :: ys) = rowLen pre y + cellsOfRows pre ys := by
+      simp [cellsOfRows]
+    rw [hsum] at ht ⊢
+    have hact : active mt st = true := by simp [active, hf, hs]; omega
+    rw [List.foldlM_cons] at h
+    simp only [rowFold, hact, if_true] at h
+    cases hrb : rowBounds pre y with
+    | none => rw [hrb] at h; simp at h
+    | some lh =>
+      obtain ⟨lo, hi⟩ := lh
+      rw [hrb] at h
+      simp only [Option.bind_eq_bind, Option.bind_some] at h
+      have hlen : rowLen pre y = (intRange lo hi).length := by simp [rowLen, hrb]
+      rw [fold_pass cond q tmc b nb mt y (intRange lo hi) st hf hs (hp y List.mem_cons_self lo hi hrb)
+        (by omega)] at h
+      have := ih _ r rfl rfl h (fun y' hy' => hp y' (List.mem_cons_of_mem _ hy')) (by simp only; omega)
+      rw [this, hlen]
+      simp only [EnumSt.mk.injEq, true_and]
+      omega
+
+
 end loops
+
+/-! ### the whole routine -/
+def qfA (q : Int) (b : M2) : Int := norm q b.a00 b.a10
+def qfB (q : Int) (b : M2) : Int := bil q b.a00 b.a10 b.a01 b.a11 * 2
+def qfC (q : Int) (b : M2) : Int := norm q b.a01 b.a11
+/-- `norm_bound_for_enumeration` -/
+def nbeOf (q : Int) (tmc : V2) (nb : Int) : Int := if nb - normV q tmc ≤ 0 then nb else nb - normV q tmc
+
+/-- the precomputation of `quat_dim2_lattice_qf_enumerate_short_vec` when it gets as far as the loops -/
+def enumPre (q : Int) (tmc : V2) (b : M2) (nb : Int) : Option EnumPre :=
+  if qfA q b * qfC q b * 4 - qfB q b * qfB q b ≤ 0 then none
+  else
+    match boundGen (2 * qfA q b * (2 * qfA q b) * nbeOf q tmc nb)
+        (2 * qfA q b * (2 * qfA q b) * qfC q b - qfB q b * qfB q b) 0 1 with
+    | some (some boundY) =>
+      some ⟨2 * qfA q b * (2 * qfA q b) * nbeOf q tmc nb, 2 * qfA q b * (2 * qfA q b) * qfC q b - qfB q b * qfB q b,
+            2 * qfA q b * (2 * qfA q b) * qfA q b, 2 * qfA q b, qfB q b, boundY⟩
+    | _ => none
+
+theorem enumerateShortVec_def (cond : V2 → Option Elem) (q : Int) (tmc : V2) (b : M2) (nb : Int) (mt : Nat) :
+    enumerateShortVec cond q tmc b nb mt =
+      if qfA q b * qfC q b * 4 - qfB q b * qfB q b ≤ 0 then some none
+      else
+        match boundGen (2 * qfA q b * (2 * qfA q b) * nbeOf q tmc nb)
+            (2 * qfA q b * (2 * qfA q b) * qfC q b - qfB q b * qfB q b) 0 1 with
+        | none => none
+        | some none => none
+        | some (some boundY) =>
+          match enumOuter cond q tmc b nb mt
+              ⟨2 * qfA q b * (2 * qfA q b) * nbeOf q tmc nb, 2 * qfA q b * (2 * qfA q b) * qfC q b - qfB q b * qfB q b,
+               2 * qfA q b * (2 * qfA q b) * qfA q b, 2 * qfA q b, qfB q b, boundY⟩
+              (2 * boundY.toNat + 2) (-boundY - 1) ⟨none, false, 0⟩ with
+          | none => none
+          | some st => some st.found := rfl
+
+/-- **refinement**: the routine is the aborting fold of `rowFold` over the rows `-bound_y … bound_y`, each row the
+    fold of `stepCell` over its x-range — i.e. the cells are processed in the order y ascending, x ascending, each cell
+    costs one try, and processing stops after a hit, after the cell (0,0), or when `max_tries` is used up. -/
+theorem enumerateShortVec_eq_fold (cond : V2 → Option Elem) (q : Int) (tmc : V2) (b : M2) (nb : Int) (mt : Nat)
+    {pre : EnumPre} (h : enumPre q tmc b nb = some pre) :
+    enumerateShortVec cond q tmc b nb mt
+      = ((intRange (-pre.boundY) pre.boundY).foldlM (rowFold cond q tmc b nb mt pre) ⟨none, false, 0⟩).map (·.found) := by
+  rw [enumerateShortVec_def]
+  simp only [enumPre] at h
+  split at h
+  · simp at h
+  · rename_i hdisc
+    rw [if_neg hdisc]
+    split at h
+    · rename_i boundY hb
+      simp only [Option.some.injEq] at h
+      subst h
+      rw [hb]
+      simp only
+      rw [outer_eq_fold cond q tmc b nb mt _ _ _ _ (by simp only; omega)]
+      rw [show (-boundY - 1 + 1 : Int) = -boundY by omega]
+      cases (intRange (-boundY) boundY).foldlM (m := Option) (rowFold cond q tmc b nb mt _) (⟨none, false, 0⟩ : EnumSt) <;> rfl
+    · simp at h
+
+/-- **completeness relative to the enumerated box, with the exact stop conditions.**  If the routine does not abort
+    and the cell `(x, y)` lies in the box (`|y| ≤ bound_y`, `lo ≤ x ≤ hi` for the row's x-range), every EARLIER cell in
+    the enumeration order (rows `y' < y` completely, then `x' < x` in row `y`) neither satisfies bound+condition nor is
+    the origin (0,0), fewer than `max_tries` cells precede it, and bound+condition holds at `(x,y)` with element `e`,
+    then the routine returns 1 with `*res = e`. -/
+theorem enum_complete_in_box (cond : V2 → Option Elem) (q : Int) (tmc : V2) (b : M2) (nb : Int) (mt : Nat)
+    {pre : EnumPre} (hpre : enumPre q tmc b nb = some pre) {r : Option Elem}
+    (hres : enumerateShortVec cond q tmc b nb mt = some r)
+    {x y lo hi : Int} (hy1 : -pre.boundY ≤ y) (hy2 : y ≤ pre.boundY) (hrow : rowBounds pre y = some (lo, hi))
+    (hx1 : lo ≤ x) (hx2 : x ≤ hi)
+    (hrows : ∀ y' ∈ intRange (-pre.boundY) (y - 1), ∀ lo' hi', rowBounds pre y' = some (lo', hi') →
+      ∀ x' ∈ intRange lo' hi', Pass cond q tmc b nb x' y')
+    (hrowy : ∀ x' ∈ intRange lo (x - 1), Pass cond q tmc b nb x' y)
+    (htries : cellsOfRows pre (intRange (-pre.boundY) (y - 1)) + (intRange lo (x - 1)).length < mt)
+    {e : Elem} (hhit : bac cond q tmc b nb x y = some e) : r = some e := by
+  rw [enumerateShortVec_eq_fold cond q tmc b nb mt hpre, intRange_split hy1 hy2, List.foldlM_append] at hres
+  cases h1 : (intRange (-pre.boundY) (y - 1)).foldlM (m := Option) (rowFold cond q tmc b nb mt pre) (⟨none, false, 0⟩ : EnumSt) with
+  | none => rw [h1] at hres; simp at hres
+  | some s1 =>
+    rw [h1] at hres
+    have hs1 := rows_pass cond q tmc b nb mt pre _ _ s1 rfl rfl h1 hrows (by simp only; omega)
+    simp only [Option.bind_eq_bind, Option.bind_some, List.foldlM_cons] at hres
+    have hact : active mt s1 = true := by
+      rw [hs1]; simp [active]; omega
+    have hrf : rowFold cond q tmc b nb mt pre s1 y
+        = some ((intRange lo hi).foldl (stepCell cond q tmc b nb mt y) s1) := by
+      simp [rowFold, hact, hrow]
+    rw [hrf] at hres
+    simp only [Option.bind_some] at hres
+    have hfound : ((intRange lo hi).foldl (stepCell cond q tmc b nb mt y) s1).found = some e := by
+      rw [intRange_split hx1 hx2]
+      apply fold_hit cond q tmc b nb mt y _ _ x s1 e (by rw [hs1]) (by rw [hs1]) hrowy _ hhit
+      rw [hs1]; simp only; omega
+    have hin : active mt ((intRange lo hi).foldl (stepCell cond q tmc b nb mt y) s1) = false := by
+      simp [active, hfound]
+    rw [foldlM_inactive cond q tmc b nb mt pre _ hin] at hres
+    simp only [Option.map_some, Option.some.injEq] at hres
+    rw [← hres, hfound]
 
 end SqiProofs.LllEnum
